@@ -12,7 +12,7 @@ import (
 	"github.com/DistCompiler/pgo/distsys/resources"
 	"github.com/DistCompiler/pgo/distsys/tla"
 	"github.com/DistCompiler/pgo/systems/raftkvs/bootstrap"
-	"github.com/DistCompiler/pgo/systems/raftkvs/configs"
+	rcfg "github.com/DistCompiler/pgo/systems/raftkvs/configs"
 	"verif/mc/explore"
 )
 
@@ -66,7 +66,7 @@ type sharedClient struct {
 type sharedWorld struct {
 	c        *explore.Ctx
 	cfg      sharedCfg
-	root     configs.Root
+	root     rcfg.Root
 	mon      *resources.Monitor
 	arch     *archCtl
 	clients  []*sharedClient
@@ -221,15 +221,26 @@ func (w *sharedWorld) check() {
 }
 
 func (w *sharedWorld) cleanup() {
+	// synchronously: a client context that is still shutting down closes whatever is in bootstrap's global detector map,
+	// i.e. it would close the detectors of the NEXT execution
+	var wg sync.WaitGroup
 	for _, sc := range w.clients {
 		if sc.running {
 			sc.running = false
+			wg.Add(1)
 			go func(sc *sharedClient) {
+				defer wg.Done()
 				_ = sc.cl.Close()
 				close(sc.reqCh)
 				<-sc.done
 			}(sc)
 		}
+	}
+	fin := make(chan struct{})
+	go func() { wg.Wait(); close(fin) }()
+	select {
+	case <-fin:
+	case <-time.After(envCap):
 	}
 	if w.arch != nil && w.arch.state == 1 {
 		select {
@@ -270,14 +281,14 @@ func sharedBody(cfgs []sharedCfg) func(c *explore.Ctx) {
 		}()
 		bootstrap.ResetClientFailureDetector()
 		monAddr := wk.freeAddr()
-		w.root = configs.Root{
+		w.root = rcfg.Root{
 			NumServers: 1, NumClients: 3, ClientRequestTimeout: time.Second,
-			FD:        configs.FD{PullInterval: sharedInterval, Timeout: sharedTimeout},
-			Mailboxes: configs.Mailboxes{ReceiveChanSize: 10, DialTimeout: 100 * time.Millisecond, ReadTimeout: 100 * time.Millisecond, WriteTimeout: 100 * time.Millisecond},
-			LeaderElection:            configs.LeaderElection{Timeout: 150 * time.Millisecond, TimeoutOffset: 150 * time.Millisecond},
+			FD:                        rcfg.FD{PullInterval: sharedInterval, Timeout: sharedTimeout},
+			Mailboxes:                 rcfg.Mailboxes{ReceiveChanSize: 10, DialTimeout: 100 * time.Millisecond, ReadTimeout: 100 * time.Millisecond, WriteTimeout: 100 * time.Millisecond},
+			LeaderElection:            rcfg.LeaderElection{Timeout: 150 * time.Millisecond, TimeoutOffset: 150 * time.Millisecond},
 			AppendEntriesSendInterval: 5 * time.Millisecond, SharedResourceTimeout: 3 * time.Millisecond, InputChanReadTimeout: 5 * time.Millisecond,
-			Servers: map[int]configs.Server{1: {MailboxAddr: wk.freeAddr(), MonitorAddr: monAddr}},
-			Clients: map[int]configs.Client{1: {MailboxAddr: wk.freeAddr()}, 2: {MailboxAddr: wk.freeAddr()}, 3: {MailboxAddr: wk.freeAddr()}},
+			Servers: map[int]rcfg.Server{1: {MailboxAddr: wk.freeAddr(), MonitorAddr: monAddr}},
+			Clients: map[int]rcfg.Client{1: {MailboxAddr: wk.freeAddr()}, 2: {MailboxAddr: wk.freeAddr()}, 3: {MailboxAddr: wk.freeAddr()}},
 		}
 		// server 1: a monitored archetype under a real monitor
 		w.mon = resources.NewMonitor(monAddr)
